@@ -443,7 +443,7 @@ func run(c *hl.Ctx) error {
 		}
 	}
 	var jobs []job
-	perTheme := c.Pick(14, 120)
+	perTheme := c.Pick(11, 160)
 	if c.Search && c.Tier != "thorough" {
 		perTheme = 40 // an obligation broke in the quick tier: a moderate search budget is enough to hit any colour code
 	}
